@@ -323,6 +323,21 @@ orc_compiler_compile_program (OrcCompiler *compiler, OrcProgram *program, OrcTar
   if (error_msg && strcmp (error_msg, "")) {
     ORC_WARNING ("program %s failed to compile, reason: %s",
         program->name, error_msg);
+    /* a fatal result must not leave the code of an earlier compilation
+     * behind as if it belonged to the program as it is now */
+    if (program->orccode) {
+      orc_code_free (program->orccode);
+      program->orccode = NULL;
+    }
+    if (program->asm_code) {
+      free (program->asm_code);
+      program->asm_code = NULL;
+    }
+    if (program->backup_func) {
+      program->code_exec = program->backup_func;
+    } else {
+      program->code_exec = (void *)orc_executor_emulate;
+    }
     free (compiler);
     return ORC_COMPILE_RESULT_UNKNOWN_PARSE;
   }
